@@ -72,6 +72,12 @@ Section Spec.
   Definition encrypt_doc (m : manifest) (fk p : list N) : list N :=
     spec_header fk (manifest_json C m) ++ List.concat (spec_segments m fk p).
 
+  (* ... the same for ANY manifest line [man] an implementation chose to write for [m] (member
+     order, whitespace and escapes are not fixed by the README; the MAC is over the bytes as
+     written) *)
+  Definition encrypt_doc_text (man : list N) (m : manifest) (fk p : list N) : list N :=
+    spec_header fk man ++ List.concat (spec_segments m fk p).
+
   (* EncryptOptions as documented: KeyName and Algorithm are required; Algorithm is one of the
      five names or the aliases AES / RSA; Cipher defaults to AES-GCM; the manifest's key name
      is DecryptionKeyName, else KeyName, or nothing with OmitKeyName. *)
@@ -96,6 +102,28 @@ Section Spec.
     match spec_manifest o np wfk with
     | Some m => Some (encrypt_doc m fk p)
     | None => None
+    end.
+
+  (* WrapKeyFn as documented ("Function that is invoked to wrap the key", "Algorithm used to
+     wrap the file key", "KeyName: name of the key to use"): the file key is wrapped once, with
+     the un-aliased algorithm and under KeyName - never under DecryptionKeyName, which is only
+     "the name of the key to include as decryption key".  [wrap fk alg name] = the wrapped key,
+     or [None] when the callback fails (then Encrypt fails). *)
+  Definition spec_wrap_call (o : enc_opts) : option (list N * list N) :=
+    match spec_manifest o [] [] with
+    | Some m => Some (kwalg_name (m_kw m), eo_keyname o)
+    | None => None
+    end.
+
+  Definition encrypt_spec_w (o : enc_opts) (fk np : list N)
+             (wrap : list N -> list N -> list N -> option (list N)) (p : list N)
+    : option (list N) :=
+    match spec_wrap_call o with
+    | None => None
+    | Some (alg, kn) => match wrap fk alg kn with
+                        | None => None
+                        | Some wfk => encrypt_spec o fk np wfk p
+                        end
     end.
 
   (* ---- the independent decoder ---- *)
